@@ -132,7 +132,8 @@ PROPS = {
     "C05": dict(T("push/finalize/reset histories (HIST), INFRAME, NOISE, corpus, mutations on Decoder<Vec> and Decoder<ArrayBuf<N>> N in {0,1,2,3,8}, each followed by finalize + empty frame + finalize; "
                   "long runs (2^8, 2^16 +-1, 2^17+1) through all front-ends; overflow-checked build; distinct = distinct (capacity, event list)"),
                 mc={"quick": ["total_hist"], "thorough": ["total_hist", "boundary_hist"]},
-                steps=[{"cmd": "c05", "judge": "J_C05", "profile": "checked"}]),
+                steps=[{"cmd": "c05", "judge": "J_C05", "profile": "checked"},
+                       {"cmd": "c05", "judge": "J_Conf", "profile": "checked", "reuse": True, "drift": True}]),
     "C07": dict(T("same payload families as C01; both encoders compared with Frame.Canonical; ArrayBuf capacities around the frame length; 5 extra next() calls after the iterator ended"),
                 mc={"quick": ["encoders"], "thorough": ["encoders"]},
                 steps=[{"cmd": "c07", "judge": "J_C07"}]),
